@@ -1,0 +1,178 @@
+//go:build verif
+
+package xsync
+
+// Contracts for the deductive verifier in /verif (property C18, sequential clauses). Only part of
+// the build under the tag `verif`.
+//
+// sync.Map is modelled by a ghost domain and value function over interface values (assumed
+// contracts taken from its documentation). The typed wrapper is verified twice, for a value type
+// that is not an interface and for one that is (`anykinds V`): a stored nil interface value is a
+// legitimate value of the second kind.
+
+//@ ghost Map.dom set[any]
+//@ ghost Map.val gmap[any]any
+
+//@ ext sync.Map.Load(sm, key) (value, ok)
+//@   ensures ok == sm.dom[key] && (ok ==> value == sm.val[key]) && (!ok ==> value == nil)
+
+//@ ext sync.Map.Store(sm, key, value)
+//@   modifies sm.dom, sm.val
+//@   ensures sm.dom == store(old(sm.dom), key, true) && sm.val == store(old(sm.val), key, value)
+
+//@ ext sync.Map.LoadOrStore(sm, key, value) (actual, loaded)
+//@   modifies sm.dom, sm.val
+//@   ensures loaded == old(sm.dom[key])
+//@   ensures loaded ==> actual == old(sm.val[key]) && sm.dom == old(sm.dom) && sm.val == old(sm.val)
+//@   ensures !loaded ==> actual == value && sm.dom == store(old(sm.dom), key, true) && sm.val == store(old(sm.val), key, value)
+
+//@ ext sync.Map.LoadAndDelete(sm, key) (value, loaded)
+//@   modifies sm.dom, sm.val
+//@   ensures loaded == old(sm.dom[key]) && (loaded ==> value == old(sm.val[key])) && (!loaded ==> value == nil)
+//@   ensures sm.dom == store(old(sm.dom), key, false) && sm.val == old(sm.val)
+
+//@ ext sync.Map.Delete(sm, key)
+//@   modifies sm.dom, sm.val
+//@   ensures sm.dom == store(old(sm.dom), key, false) && sm.val == old(sm.val)
+
+//@ ext sync.Map.Swap(sm, key, value) (previous, loaded)
+//@   modifies sm.dom, sm.val
+//@   ensures loaded == old(sm.dom[key]) && (loaded ==> previous == old(sm.val[key])) && (!loaded ==> previous == nil)
+//@   ensures sm.dom == store(old(sm.dom), key, true) && sm.val == store(old(sm.val), key, value)
+
+//@ ext sync.Map.CompareAndSwap(sm, key, old_, new_) (swapped)
+//@   modifies sm.dom, sm.val
+//@   ensures swapped == (old(sm.dom[key]) && old(sm.val[key]) == old_)
+//@   ensures swapped ==> sm.dom == old(sm.dom) && sm.val == store(old(sm.val), key, new_)
+//@   ensures !swapped ==> sm.dom == old(sm.dom) && sm.val == old(sm.val)
+
+//@ ext sync.Map.CompareAndDelete(sm, key, old_) (deleted)
+//@   modifies sm.dom, sm.val
+//@   ensures deleted == (old(sm.dom[key]) && old(sm.val[key]) == old_)
+//@   ensures deleted ==> sm.dom == store(old(sm.dom), key, false) && sm.val == old(sm.val)
+//@   ensures !deleted ==> sm.dom == old(sm.dom) && sm.val == old(sm.val)
+
+// every stored key is a K and every stored value a V
+//@ pred mapRep(m) = forall k any {(&m.m).dom[k]} :: (&m.m).dom[k] ==> isa(k, K) && isa((&m.m).val[k], V)
+
+//@ func Map.Load
+//@   props C18
+//@   anykinds V
+//@   requires mapRep(m)
+//@   ensures result1 == (&m.m).dom[box(key)]
+//@   ensures result1 ==> result0 == unbox((&m.m).val[box(key)], V)
+//@   ensures !result1 ==> result0 == zero(V)
+
+//@ func Map.Store
+//@   props C18
+//@   anykinds V
+//@   requires mapRep(m)
+//@   modifies (&m.m).dom, (&m.m).val
+//@   ensures mapRep(m) && (&m.m).dom == store(old((&m.m).dom), box(key), true) && (&m.m).val == store(old((&m.m).val), box(key), box(value))
+
+//@ func Map.Delete
+//@   props C18
+//@   anykinds V
+//@   requires mapRep(m)
+//@   modifies (&m.m).dom, (&m.m).val
+//@   ensures mapRep(m) && (&m.m).dom == store(old((&m.m).dom), box(key), false) && (&m.m).val == old((&m.m).val)
+
+//@ func Map.LoadAndDelete
+//@   props C18
+//@   anykinds V
+//@   requires mapRep(m)
+//@   modifies (&m.m).dom, (&m.m).val
+//@   ensures mapRep(m) && result1 == old((&m.m).dom[box(key)])
+//@   ensures result1 ==> result0 == unbox(old((&m.m).val[box(key)]), V)
+//@   ensures !result1 ==> result0 == zero(V)
+//@   ensures (&m.m).dom == store(old((&m.m).dom), box(key), false)
+
+//@ func Map.LoadOrStore
+//@   props C18
+//@   anykinds V
+//@   requires mapRep(m)
+//@   modifies (&m.m).dom, (&m.m).val
+//@   ensures mapRep(m) && result1 == old((&m.m).dom[box(key)])
+//@   ensures result1 ==> result0 == unbox(old((&m.m).val[box(key)]), V) && (&m.m).val == old((&m.m).val)
+//@   ensures !result1 ==> result0 == value && (&m.m).val == store(old((&m.m).val), box(key), box(value))
+
+//@ func Map.Swap
+//@   props C18
+//@   anykinds V
+//@   requires mapRep(m)
+//@   modifies (&m.m).dom, (&m.m).val
+//@   ensures mapRep(m) && result1 == old((&m.m).dom[box(key)])
+//@   ensures result1 ==> result0 == unbox(old((&m.m).val[box(key)]), V)
+//@   ensures !result1 ==> result0 == zero(V)
+//@   ensures (&m.m).dom == store(old((&m.m).dom), box(key), true) && (&m.m).val == store(old((&m.m).val), box(key), box(value))
+
+// ---- Future (sequential clauses): filled <=> its channel is closed ----
+
+//@ ghost Future.gval T
+
+//@ pred futRep(f) = f.c != nil && chn(f.c) == 0 && chpos(f.c) == 0 && (chclosed(f.c) ==> f.x == f.gval)
+
+//@ func NewFuture
+//@   props C18
+//@   after call make[0]: assume chn(callresult) == 0
+//@   ensures fresh(result) && futRep(result) && !chclosed(result.c)
+
+//@ func Future.Fill
+//@   props C18
+//@   requires futRep(f)
+//@   modifies f.x, f.gval, chclosed(f.c)
+//@   panics when chclosed(f.c)
+//@   ghost f.gval := x
+//@   ensures futRep(f) && chclosed(f.c) && f.gval == x && f.x == x
+
+//@ func Future.Wait
+//@   props C18
+//@   requires futRep(f)
+//@   ensures chclosed(f.c) && result == f.gval && futRep(f)
+
+//@ ghost Context.donech <-chan struct{}
+//@ ghost Context.errv error
+//@ ext context.Context.Done(ctx) (c)
+//@   ispure
+//@   ensures c == ctx.donech
+//@ ext context.Context.Err(ctx) (e)
+//@   ispure
+//@   ensures e == ctx.errv
+
+//@ func Future.WaitContext
+//@   props C18
+//@   requires futRep(f) && (ctx.donech == nil || (chn(ctx.donech) == 0 && chpos(ctx.donech) == 0 && (chclosed(ctx.donech) ==> ctx.errv != nil)))
+//@   ensures futRep(f)
+//@   ensures result1 == nil ==> chclosed(f.c) && result0 == f.gval
+//@   ensures result1 != nil ==> result1 == ctx.errv && result0 == zero(T) && ctx.donech != nil && chclosed(ctx.donech)
+
+// ---- Watchable (sequential clauses) ----
+
+//@ ghost Pointer.gv *T
+
+//@ ext atomic.Pointer.Load(p) (r)
+//@   ensures r == p.gv
+//@ ext atomic.Pointer.Swap(p, new_) (old_)
+//@   modifies p.gv
+//@   ensures old_ == old(p.gv) && p.gv == new_
+//@ ext atomic.Pointer.CompareAndSwap(p, old_, new_) (swapped)
+//@   modifies p.gv
+//@   ensures swapped == (old(p.gv) == old_) && (swapped ==> p.gv == new_) && (!swapped ==> p.gv == old(p.gv))
+
+// the channel of the current cell is open: it is closed exactly by the Set that replaces the cell
+//@ pred wRep(w) = (&w.p).gv == nil || ((&w.p).gv.c != nil && !chclosed((&w.p).gv.c) && alloc((&w.p).gv))
+
+//@ func Watchable.Set
+//@   props C18
+//@   requires wRep(w)
+//@   modifies (&w.p).gv, chclosed((&w.p).gv.c)
+//@   ensures wRep(w) && (&w.p).gv != nil && fresh((&w.p).gv) && (&w.p).gv.t == t
+//@   ensures old((&w.p).gv) != nil ==> chclosed(old((&w.p).gv.c))
+
+//@ func Watchable.Value
+//@   props C18
+//@   requires wRep(w)
+//@   modifies (&w.p).gv
+//@   ensures wRep(w) && (&w.p).gv != nil && result1 == (&w.p).gv.c && !chclosed(result1)
+//@   ensures old((&w.p).gv) == nil ==> result0 == zero(T)
+//@   ensures old((&w.p).gv) != nil ==> result0 == old((&w.p).gv.t) && (&w.p).gv == old((&w.p).gv)
